@@ -109,10 +109,21 @@ class Gen:
             self.link, self.parked, self.reader_out = "down", False, False
             self.waiter = None
         else:
-            self.emit("dial ok %s %s" % (H(mq.connack(0, 0)), r.choice(["t0", "e3", "c0", "t5,e2", "t4,t0"])), "rs")
+            pol = r.choice(["t0", "e3", "c0", "t5,e2", "t4,t0", "o,e0", "o,t0", "o,c0", "o,e2", "o,o,e0", "o,o,t3", "o,t1,t0"])
+            self.emit("dial ok %s %s" % (H(mq.connack(0, 0)), pol), "feed block", "rs")
+            if pol.startswith("o") and (self.out1 or self.out2 or r.random() < 0.5):
+                # the CONNECT goes out; what follows depends on whether a resend hits the failing write: ask the client
+                self.emit("rs")
+                if r.random() < 0.6:
+                    self.ntag += 1
+                    self.emit("call t%d %s" % (self.ntag, r.choice(["ping", "pub 0 74 6869", "sub 1 61"])))
+                    self.emit("quit t%d" % self.ntag)
+                self.emit("brk")
             self.link, self.parked, self.reader_out = "down", False, False
             self.waiter = None
         self.subs, self.unsubs, self.ping = [], [], None   # toOffline breaks them (approximation)
+        if self.link == "down" and r.random() < self.p.get("backoff", 0.3):
+            self.emit("backoff")
 
     def publish(self):
         r = self.r
@@ -193,6 +204,15 @@ class Gen:
                 self.link, self.doomed, self.parked, self.reader_out = "pending", False, False, False
                 return
         if pkts:
+            if r.random() < 0.12 and self.link == "live":
+                # the write the read routine makes in response (PUBREL) fails: the connection is lost in between
+                self.emit("wpol " + r.choice(["e0", "t0", "c0", "e1", "t2,t0"]))
+                self.feed_and_read(pkts)
+                self.emit("rs")
+                self.link, self.parked, self.reader_out, self.doomed = "pending", False, False, False
+                self.subs, self.unsubs, self.ping = [], [], None
+                self.owed = False
+                return
             self.feed_and_read(pkts)
 
     def inbound(self):
@@ -286,6 +306,16 @@ class Gen:
             will_fail = True
         else:
             will_fail = False
+        if kind in ("sub", "unsub") and self.link in ("live", "pending") and r.random() < self.p.get("txwrap", 0.12):
+            # the identifier counter comes round to one that is still in flight (a response 8192 requests late)
+            busy = [e[1] for e in (self.subs if kind == "sub" else self.unsubs)]
+            if busy:
+                self.txn = (r.choice(busy) & 0x1fff) - r.choice([0, 0, 1])
+                self.txn %= 0x2000
+                self.emit("txn %d" % self.txn)
+            elif r.random() < 0.3:
+                self.txn = 0x2000 - r.choice([1, 2])
+                self.emit("txn %d" % self.txn)
         if kind == "sub":
             n = r.choice([1, 1, 2, 3])
             fs = [self.topic() + r.choice([b"", b"/#", b"/+"]) for _ in range(n)]
@@ -293,6 +323,8 @@ class Gen:
                 fs = r.choice([[], [b""], [b"a", b"\xff"]])
             self.emit("call %s sub %d %s" % (tag, r.choice([0, 1, 2]), ",".join(H(f) for f in fs) if fs else "none"))
             if fs and all(fs) and b"\xff" not in fs:
+                while (0x6000 | (self.txn & 0x1fff)) in [e[1] for e in self.subs]:
+                    self.txn += 1
                 pid = 0x6000 | (self.txn & 0x1fff)
                 self.txn += 1
                 if self.link == "live" and not will_fail:
@@ -303,6 +335,8 @@ class Gen:
         elif kind == "unsub":
             fs = [self.topic() for _ in range(r.choice([1, 2]))]
             self.emit("call %s unsub %s" % (tag, ",".join(H(f) for f in fs)))
+            while (0x4000 | (self.txn & 0x1fff)) in [e[1] for e in self.unsubs]:
+                self.txn += 1
             pid = 0x4000 | (self.txn & 0x1fff)
             self.txn += 1
             if self.link == "live" and not will_fail:
@@ -367,6 +401,13 @@ class Gen:
                 codes[0] = 3                 # illegal code
             elif m < 0.16:
                 pid ^= 0x0800                # unknown identifier
+            elif m < 0.22:
+                # an UNSUBACK carrying the identifier of this pending SUBSCRIBE: not an answer to it
+                self.subs.append([tag, pid, n])
+                self.feed_and_read([mq.ack("unsuback", pid)])
+                self.link, self.parked, self.reader_out = "pending", False, False
+                self.subs, self.unsubs, self.ping = [], [], None
+                return
             pkts.append(mq.suback(pid, codes))
             if 0.08 <= m < 0.12 or m < 0.08:
                 self.feed_and_read(pkts)
@@ -375,6 +416,12 @@ class Gen:
                 return
         elif self.unsubs and roll < 0.8:
             tag, pid = self.unsubs.pop(0)
+            if r.random() < 0.08:
+                # a SUBACK carrying the identifier of this pending UNSUBSCRIBE
+                self.feed_and_read([mq.suback(pid, [0])])
+                self.link, self.parked, self.reader_out = "pending", False, False
+                self.subs, self.unsubs, self.ping = [], [], None
+                return
             pkts.append(mq.ack("unsuback", pid))
         elif self.ping:
             pkts.append(mq.PINGRESP)
@@ -574,11 +621,44 @@ class Gen:
                     self.emit("damage rm %x" % k)
         self.restart()
 
+    def wrapstore(self):
+        """a store left by a client whose identifiers are about to wrap around (or just did): records crafted the
+        way the client writes them, adopted right away"""
+        r = self.r
+        seq = r.randrange(2, 1000)
+        self.m1 = r.choice([8, 8, 16384, -1, 4])
+        self.m2 = r.choice([8, 8, -1, 4])
+        n1 = r.randrange(0, min(5, self.cap(self.m1)) + 1)
+        n2 = r.randrange(0, min(5, self.cap(self.m2)) + 1)
+        s1 = (0x4000 - r.randrange(0, n1 + 2)) % 0x4000          # first pending sequence number, level 1
+        s2 = (0x4000 - r.randrange(0, n2 + 2)) % 0x4000
+        recs = []
+        for i in range(n1):
+            k = 0x8000 | ((s1 + i) & 0x3fff)
+            recs.append((k, mq.publish(1, b"t", bytes([97 + i]), k)))
+        nrel = r.randrange(0, n2 + 1)
+        for i in range(n2):
+            k = 0xc000 | ((s2 + i) & 0x3fff)
+            recs.append((k, mq.ack("pubrel", k) if i < nrel else mq.publish(2, b"t", bytes([65 + i]), k)))
+        r.shuffle(recs)
+        # storage order: level-wise in identifier order (acceptance order); PUBRELs carry later numbers than the PUBLISHes they replaced
+        order = sorted(recs, key=lambda e: (e[1][0] >> 4 == 6, ((e[0] & 0x3fff) - (s1 if e[0] < 0xc000 else s2)) & 0x3fff))
+        for k, pk in order:
+            seq += r.randrange(1, 4)
+            self.emit("damage stray %x %s" % (k, H(mq.record(pk, seq))))
+        self.emit("store", "adopt %d %d %d" % (self.clean, self.m1, self.m2), "counters")
+        self.reset_client_state()
+        self.out1 = [0x8000 | ((s1 + i) & 0x3fff) for i in range(n1)]
+        self.out2 = [[0xc000 | ((s2 + i) & 0x3fff), 1 if i < nrel else 0] for i in range(n2)]
+        self.acc1, self.acc2 = s1 + n1, s2 + n2
+
     # ---- script ----------------------------------------------------------------
     def script(self):
         r = self.r
         self.new_script()
         self.had_conn = False
+        if r.random() < self.p.get("wrap", 0):
+            self.wrapstore()
         n = r.randrange(*self.length)
         acts = ["publish", "ack", "inbound", "connect", "fault", "restart", "call", "response", "hostile", "close", "damage", "blocked"]
         w = [self.p[a] for a in acts]
